@@ -9,6 +9,19 @@ BASELINE = ("cd /repo && env -u PYCRAFT_VERIF /venv/bin/python -m pytest -ra -q 
             "--timeout=900 --continue-on-collection-errors")
 
 CHECKS = {
+    'C14': dict(
+        technique='TLA+ model of the exception path (ExcChain.tla, one action per step of except / handler chain / final handler / '
+                  'record / interrupt check / re-raise / finally) explored exhaustively by TLC; scenarios replayed into a real '
+                  'Connection under the scheduler (S->I); placement in the lifecycle checked in ConnLifecycle.tla',
+        text='ExcChain.tla enumerates 5 fault origins (early listener, ordinary listener, built-in reaction, packet decoder, exit '
+             'callback) x every handler chain of <= 2 (thorough 3) handlers over 4 type filters x {return, raise, reconnect} x early '
+             'flag x final handler in {None, False, returning, raising}; TLC checks OneCatch, InOrder, ReplacementFlows, '
+             'FinalAlwaysRuns, LastRecorded, ReraiseOnlyIfUncaughtAndNoFinal, ClosedUnlessReconnected, ThreadEndsSlotFree. Thousands of '
+             'scenarios (all with long call logs, a seeded sample of the rest) run against the real code; the handler call log with '
+             'the exception each handler saw, the final handler\'s argument, connection.exception, whether run() re-raised, the '
+             'socket closed at the peer, the cleared thread slot and a following connect() are compared with the model.',
+        note='Trusted: TLC, scheduler and virtual primitives, peer codec. Chains of 4 handlers are not generated.',
+        design='5/C14'),
     'C12': dict(
         technique='TLA+ model of concurrent writers (ConnWriter.tla) with all interleavings checked by TLC (the variant without the '
                   'lock must fail); the real Connection with 1-4 user threads under preemption-bounded and seeded random schedules of '
